@@ -526,6 +526,12 @@ def Disj (A sa B sb : Nat) : Prop := A + sa ≤ B ∨ B + sb ≤ A
 theorem disjoint_sound (a : Tm) (sa : Nat) (b : Tm) (sb : Nat) (h : disjoint a sa b sb = true) :
     Disj (evalW e σ a).toNat sa (evalW e σ b).toNat sb := by
   unfold disjoint at h
+  rw [Bool.or_eq_true] at h
+  rcases h with h | h
+  · split at h
+    · simp only [decide_eq_true_eq] at h
+      simpa [Disj, evalW] using h
+    · cases h
   simp only [Bool.and_eq_true, beq_iff_eq, decide_eq_true_eq] at h
   obtain ⟨hbase, h1, h2⟩ := h
   rw [splitAddr_sound e σ a, splitAddr_sound e σ b, hbase]
